@@ -37,4 +37,9 @@ CHECKS.update({
             "Two genuine root causes (match while a replay is in flight; rehydration of requirement waiters after resume) are recorded with root-cause context in the witness; violations outside those contexts or clauses alarm.", ENGINE_TECH),
 })
 
+CHECKS.update({
+    "C12": ("6/C12", "Deterministic workflows (chain+store, fan-in, retries with zero/positive delay incl. exhaustion, catch_error budgets, waits) x every schedule x one ctx.to_dict()->JSON->from_dict resume at every quiescent point; result, store, retry numbers of re-executed work, total executions and round-trip stability compared with the uninterrupted runs (first shown to agree on all schedules).",
+            "Fix 8340a80 repaired the lost retry count / recovery budget of in-progress work; a delayed retry lost by to_dict() and the waiter rehydration defect remain recorded findings.", ENGINE_TECH),
+})
+
 NOT_APPLICABLE = {}
